@@ -127,11 +127,12 @@ def removeFileAndEmptyParents (p : Bytes) : DM Unit := do
   for d in (dirPrefixes p).reverse do
     if go then
       let s ← get
-      -- not empty, or not a directory that could be removed in the first place (".", a mount point, a link, gone already)
-      let ok ← tryOp (.rmdir (absPath s d)) (fun e => e == .enotempty || e == .eexist || e == .enotdir || e == .enoent)
+      -- whatever keeps the directory where it is, is no trouble: the file has been removed and that is what was asked for (D91)
+      let ok ← tryOp (.rmdir (absPath s d)) (fun _ => true)
       if !ok then go := false
 
-def writeMask : Nat := 0o222
+/-- only the write bit of the owner decides whether a file is read-only, and only that bit is set to write to it (D94) -/
+def writeMask : Nat := 0o200
 
 /-- `fix_permissions_if_needed` -/
 def fixPermissionsIfNeeded (o : Options) (outputFile : Bytes) : DM PermResult := do
@@ -144,9 +145,10 @@ def fixPermissionsIfNeeded (o : Options) (outputFile : Bytes) : DM PermResult :=
         return { oldPerms := old, needFix := true, hadFailure := true }
   pure { oldPerms := old, needFix := needFix }
 
-/-- the `make_writable` callback of `write_patched_result_to_file`: a read-only file becomes writable only right before it is written -/
+/-- the `make_writable` callback of `write_patched_result_to_file`: a read-only file becomes writable only right before it is written,
+    which is after it may have been moved to its backup: then nothing is left to be made writable (D93) -/
 def makeWritable (perm : PermResult) (p : Bytes) : DM Unit := do
-  if perm.needFix then
+  if perm.needFix && (← fsExists p) then
     match perm.oldPerms with
     | some m => opChmod p (m ||| writeMask)
     | none => pure ()
@@ -210,7 +212,8 @@ def guessFilepath (p : Patch) (reverse : Bool) : DM Bytes := do
   if p.newPath != devNull && (← fsExists p.newPath) then return p.newPath
   if p.indexPath != devNull && (← fsExists p.indexPath) then return p.indexPath
   if p.operation == .add then return p.newPath
-  if reverse && p.operation == .delete then return p.oldPath
+  -- a file which is to be removed but is not there (any more) is still the file the patch is about (D88)
+  if p.operation == .delete then return p.oldPath
   pure []
 
 /-- `read_tty_until_enter` -/
@@ -268,8 +271,8 @@ def writePatchedResult (o : Options) (p : Patch) (outputFile : Bytes) (perm : Pe
     else modify fun s => { s with dWrites := s.dWrites ++ [{ dest := outputFile, content := content, newMode := p.newMode, perm := perm,
                                                              backup := shouldBackup }] }
   else do
-    makeWritable perm outputFile
     if shouldBackup then makeBackupFor o outputFile
+    makeWritable perm outputFile
     writeFile outputFile content
     permissionCallback p.newMode perm outputFile
 
@@ -278,8 +281,8 @@ def finalizeDeferred (o : Options) : DM Unit := do
   let s ← get
   for w in s.dWrites do
     ensureParentDirs w.dest
-    makeWritable w.perm w.dest
     if w.backup then makeBackupFor o w.dest
+    makeWritable w.perm w.dest
     writeFile w.dest w.content
     permissionCallback w.newMode w.perm w.dest
   for (p, backup) in s.dRemovals do
@@ -338,10 +341,9 @@ def processSection (o : Options) (format : Format) : DM Bool := do
   modify fun s => { s with sections := s.sections ++ [(fileToPatch, outputFile)] }
   createTemp    -- tmp_reject_file
   -- what is read must be a regular file, and so must what is written if that exists (the new name of a rename or copy; not with -o);
-  -- a symbolic link is only what is patched if the patch itself is about one
-  let symPatch := isSymlinkMode patch0.oldMode || isSymlinkMode patch0.newMode
+  -- a symbolic link is never read or written through, not even for a patch which is about a link (D92)
   let notRegular (p : Bytes) : DM Bool := do
-    if !symPatch && (← fsIsSymlink p) then return true
+    if (← fsIsSymlink p) then return true
     return (← fsExists p) && !(← fsIsRegular p)
   let refused ← (do
     if (← notRegular fileToPatch) then return true
@@ -363,7 +365,7 @@ def processSection (o : Options) (format : Format) : DM Bool := do
     else pure perm0
   -- the input
   let s ← get
-  let isCreating := patch0.operation == .add || (o.reverse && patch0.operation == .delete)
+  let isCreating := patch0.operation == .add || patch0.operation == .delete
   let inputBytes ← match s.fs.readFile (absPath s fileToPatch) with
     | .ok b => pure b
     | .error .enoent => if isCreating then pure [] else throw Exn.systemError
